@@ -63,7 +63,13 @@ impl StreamBuffer {
     {
         self.pos = 0;
         self.grow_for_read_remaining(remaining);
-        let cap = fill(&mut self.data)?;
+        // Never take in more than `remaining` bytes: the stream may have been
+        // grown through another handle, and this one must not read past the
+        // length it knows.
+        let limit = usize::try_from(remaining)
+            .unwrap_or(usize::MAX)
+            .min(self.data.len());
+        let cap = fill(&mut self.data[..limit])?;
         self.set_cap(cap);
         Ok(())
     }
